@@ -89,7 +89,34 @@ def codec_history(draw, tier: str, n_values: int, vcfg: S.ValCfg = None, dup_ids
             v = draw(variant_of(s))
             steps.append((v, name, draw(st.lists(S.struct_value(v, name, vc), min_size=1, max_size=3))))
         steps.append((s, name, vals[:2]))
+    if draw(st.integers(0, 3)) == 0:
+        # a tool that edits the loaded schema object itself: field ids are permuted and the declarations re-ordered IN
+        # PLACE (same object, same field count, same types); the codec must follow the object as it is now
+        import copy
+
+        s2 = copy.deepcopy(s)
+        for st_ in s2.structs:
+            if len(st_.fields) >= 2:
+                ids = draw(st.permutations([f.fid for f in st_.fields]))
+                for f, i in zip(st_.fields, ids):
+                    f.fid = i
+                st_.fields = list(draw(st.permutations(st_.fields)))
+        steps.append((s2, name, vals[:2], "inplace"))
     return steps
+
+
+def renumber_in_place(fcp: Any, s2: M.Schema) -> None:
+    """Make the live FcpV2 object equal to the description s2 (which differs from what was parsed only in field ids and
+    declaration order) by editing its Struct objects in place."""
+    for st_ in s2.structs:
+        real = fcp.get_struct(st_.name).unwrap()
+        by_name = {f.name: f for f in real.fields}
+        new = []
+        for f in st_.fields:
+            rf = by_name[f.name]
+            rf.field_id = f.fid
+            new.append(rf)
+        real.fields[:] = new
 
 
 @st.composite
